@@ -487,3 +487,26 @@ mod tests {
         assert_eq!(filtered.len(), vertices.len());
     }
 }
+
+/// Forwarding wrappers over the crate-private coordinate comparison kernels.
+///
+/// Compiled only with the `verif-hooks` cargo feature; used by external
+/// verification harnesses.
+#[cfg(feature = "verif-hooks")]
+#[doc(hidden)]
+#[allow(missing_docs, clippy::must_use_candidate)]
+pub mod verif_hooks_dedup {
+    use crate::geometry::traits::coordinate::CoordinateScalar;
+
+    pub fn coords_equal_exact<T: CoordinateScalar, const D: usize>(a: &[T; D], b: &[T; D]) -> bool {
+        super::coords_equal_exact(a, b)
+    }
+
+    pub fn coords_within_epsilon<T: CoordinateScalar, const D: usize>(
+        a: &[T; D],
+        b: &[T; D],
+        epsilon: T,
+    ) -> bool {
+        super::coords_within_epsilon(a, b, epsilon)
+    }
+}
